@@ -222,4 +222,37 @@ class C14c(Obligation):
             ctx.check(len(q) == 0, 'an unused handle, or one of a crashed helper, queues nothing')
 
 
-OBLIGATIONS = [C14a, C14b, C14c]
+class C14d(Obligation):
+    id = 'C14.d'
+    title = 'helper cleanup: the child is waited for unless kill failed, the reader thread is joined, all three pipes are closed'
+    pattern = 'P3 (each OS call may raise OSError)'
+    assumptions = ('process.kill/wait and each stream.close may independently raise OSError (symbolic); thread.join is a stub',)
+
+    def scenario(self, ctx, cfg):
+        log = []
+        kill_fails = ctx.flag('kill_raises')
+        wait_fails = ctx.flag('wait_raises')
+        close_fails = [ctx.flag('close_%s_raises' % n) for n in ('stdin', 'stdout', 'stderr')]
+        ctx.int('unused')
+
+        def op(name, fails):
+            def f():
+                log.append(name)
+                if fails:
+                    raise OSError(name)
+            return f
+        streams = [Obj(close=op('close-' + n, close_fails[i])) for i, n in enumerate(('stdin', 'stdout', 'stderr'))]
+        process = Obj(kill=op('kill', kill_fails), wait=op('wait', wait_fails),
+                      stdin=streams[0], stdout=streams[1], stderr=streams[2])
+        thread = Obj(join=op('join', False))
+        ctx.force(jsub._cleanup_process)
+        out = ctx.call(jsub._cleanup_process, process, thread)
+        ctx.check(out.exc is None, 'cleanup never raises')
+        ctx.check(log[0] == 'kill', 'the child is killed first')
+        ctx.check(('wait' in log) == (not kill_fails), 'the child is reaped (wait) unless kill itself failed')
+        ctx.check('join' in log, 'the stderr reader thread is joined')
+        for n in ('stdin', 'stdout', 'stderr'):
+            ctx.check(log.count('close-' + n) == 1, 'every pipe is closed, whatever happened to the others')
+
+
+OBLIGATIONS = [C14a, C14b, C14c, C14d]
